@@ -239,7 +239,11 @@ func (u *Unit) execExtern(p *Path, x *ssa.Call, name string, args []*Term) {
 				return
 			}
 		}
-		set1(u.cx.Fresh("sprintf_opaque", SStr))
+		// a format that is not a constant: the result is some function of the format and the operands
+		// (uninterpreted fmtDyn over the operand cells and their number)
+		u.specFun("fmtDyn", []string{SStr, ArrSort(SInt, "Any"), SInt}, SStr)
+		cellsAny := p.st.Get(u.cx, enc.cellsComp("Any").Name)
+		set1(App("fmtDyn", SStr, args[0], Select(cellsAny, enc.Sel("sl_arr", args[1])), enc.Sel("sl_len", args[1])))
 	case "fmt.Errorf":
 		e := u.cx.Fresh("err", SInt)
 		p.assume(Gt(e, IntLit(0)))
